@@ -16,7 +16,8 @@ LEVEL = "exploration"
 RULE = ("Each of the 657 named colours exhaustively (16 per document as a 4x4 body text-colour / background "
         "matrix, and on title, header, footnote, source, page header/footer), each of the 10 fonts on each "
         "component, and Hypothesis-generated single-section, 2-4 section and figure documents with random "
-        "palettes of 1-8 colours in scalar / per-column / per-row / matrix shapes. Oracle: every \\cf \\cb "
+        "palettes of 1-8 colours in scalar / per-column / per-row / matrix shapes (single tables also paginated, with a page_by "
+        "or a subline_by column removed from the display). Oracle: every \\cf \\cb "
         "\\chcbpat \\brdrcf parameter indexes an existing \\colortbl entry; for every sentinel-tagged element the "
         "entry's RGB equals the frozen RGB of the requested colour (0/absent only for ''/black); a colour "
         "table exists whenever a non-default colour is requested; every \\fN resolves to a \\fonttbl entry whose "
@@ -72,6 +73,11 @@ def _section(draw, pal, idx, multi):
         g = draw(st.integers(0, ncol - 1))
         cols[g]["values"] = [f"@G0:v{i // 4}" for i in range(n)]
         body["page_by"] = [names[g]]
+    elif not multi and ncol >= 2 and draw(st.integers(0, 9)) < 3:
+        # a subline_by column: every group starts a page (and may continue over further pages); attributes keep the ORIGINAL indices
+        g = draw(st.integers(0, ncol - 1))
+        cols[g]["values"] = [f"@B0:v{i // 5}" for i in range(n)]
+        body["subline_by"] = [names[g]]
     for key in ("text_color", "text_background_color"):
         if draw(st.integers(0, 9)) < 7:
             body[key] = draw(_shaped(pal, n, ncol))
